@@ -2,7 +2,7 @@
    list, prod, sumbool, sumor -> the OCaml types); numbers stay the extracted inductives.
    No Extract Constant / Extract Inductive of our own. *)
 From Coq Require Import Extraction ExtrOcamlBasic.
-From KP Require Import Bytes Utf8 Nav Tree History Merge Version ReadScript WriteScript Base32 Otp OtpInst Kdbx4 Key.
+From KP Require Import Bytes Utf8 Nav Tree History Merge Version ReadScript WriteScript Base32 Otp OtpInst Kdbx4 Key Kdbx3 Kdb.
 Extraction Language OCaml.
 Set Extraction KeepSingleton.
 Separate Extraction
@@ -14,4 +14,5 @@ Separate Extraction
   Base32.b32_decode Base32.b32_encode Otp.otp_parse Otp.value_at OtpInst.hmac_alg BinNat.N.mul BinNat.N.div BinNat.N.modulo
   Kdbx4.decrypt4 Kdbx4.dump4 Kdbx4.draw_sizes Kdbx4.vd_of_kdf Kdbx4.draws_ok
   Key.key_elements Key.composite_kdb Key.composite_kdbx
+  Kdbx3.decrypt3 Kdbx3.frame3 Kdb.kdb_open Kdb.parse_db Kdb.payload_enc
   WriteScript.save_to_sink WriteScript.fresh_sink WriteScript.save_raw.
